@@ -309,7 +309,13 @@ func (x *Exec) call(in ssa.Instruction, c *ssa.CallCommon, res ssa.Value) {
 		}
 		_, optTrusted := fc.Opts["trusted"]
 		for _, cl := range fc.Ensures {
-			if !fc.Trusted && !optTrusted && len(cl.Tags) == 0 {
+			assumedCl := false
+			for _, l := range splitList(fc.Opts["assume"]) {
+				if l == cl.Label {
+					assumedCl = true
+				}
+			}
+			if !fc.Trusted && !optTrusted && len(cl.Tags) == 0 && !assumedCl {
 				continue // aux clauses are not visible to callers
 			}
 			if mentionsLocalGhost(cl.Expr, fc) {
